@@ -181,6 +181,9 @@ fn body(p: P) -> impl Fn() + Send + Sync + 'static {
         if got_v.len() < sent_values.len() {
             ixmc::note("sample-evicted-or-skipped");
         }
+        if std::env::var("H_PSMT_DEBUG").is_ok() {
+            eprintln!("OUT sent={sent:?} got={got_v:?} late={:?}", got_late.lock().unwrap());
+        }
         ixmc::observe(ixmc::hash_of(&(sent, got_v, got_late.lock().unwrap().clone())));
         drop(late);
         drop(subscriber);
